@@ -22,6 +22,8 @@ func checkC15(c *Ctx, r *Report) {
 		r.Fail("anchor", "package transport/telnet not found")
 		return
 	}
+	loginReadsRule(c, r, "C15-login")
+	borrowRule(c, r, "C15-borrow", "transport/telnet")
 	// ---- C15-buffer
 	r.Rule("C15-buffer", 2, "login readers travel with the connection")
 	nReaders := 0
@@ -446,4 +448,61 @@ func sameSlotValue(a, b ssa.Value) bool {
 		return false
 	}
 	return stored(sa, b) || stored(sb, a)
+}
+
+// loginReadsRule: the login exchange consumes whole CR-terminated lines and nothing else from the
+// buffered reader that is handed over with the connection, and what it writes to the peer is
+// formatted with constant formats (the callsign and password are data, never a format).
+func loginReadsRule(c *Ctx, r *Report, rule string) {
+	const pkg = "transport/telnet"
+	r.Rule(rule, 3, "login reads whole CR-terminated lines only; replies use constant formats")
+	nReaders := 0
+	for _, fn := range c.SrcFuncs(pkg) {
+		for _, mk := range callsTo(fn, false, "bufio.NewReader", "bufio.NewReaderSize") {
+			rd := mk.Value()
+			if rd == nil {
+				continue
+			}
+			nReaders++
+			for _, ci := range allCalls(fn) {
+				if len(ci.Common().Args) == 0 || ci.Common().Args[0] != rd || ci == mk {
+					continue
+				}
+				name := callName(ci.Common())
+				if !strings.HasPrefix(name, "bufio.Reader.") {
+					continue
+				}
+				m := strings.TrimPrefix(name, "bufio.Reader.")
+				o := r.Add(rule, fnName(fn), "login reader: "+c.exprAt(fn, ci.Pos()), c.pos(ci.Pos()))
+				switch m {
+				case "ReadString", "ReadBytes", "ReadSlice":
+					if d, ok := constInt(ci.Common().Args[1]); ok && d == 13 {
+						o.OK("reads one CR-terminated line")
+					} else {
+						o.Bad("a login line is read up to a delimiter other than CR: the two sides of the login (and every Winlink telnet peer) end lines with CR only, so the read runs into the payload or blocks")
+					}
+				case "Buffered", "Size", "Peek":
+					o.OK("does not consume")
+				default:
+					o.Bad("%s consumes bytes beyond the login lines from the reader that is handed over with the connection: payload that arrived in the same segment as the login (e.g. a first byte 0x0A) is lost", m)
+				}
+			}
+		}
+		for _, ci := range callsTo(fn, false, "fmt.Fprintf", "fmt.Sprintf", "fmt.Fprint", "fmt.Fprintln") {
+			name := callName(ci.Common())
+			if name != "fmt.Fprintf" && name != "fmt.Sprintf" {
+				continue
+			}
+			fi := 0
+			if name == "fmt.Fprintf" {
+				fi = 1
+			}
+			_, isC := constString(ci.Common().Args[fi])
+			r.Check(rule, fnName(fn), "format of "+c.exprAt(fn, ci.Pos()), c.pos(ci.Pos()), isC,
+				"constant format", "the format string is not a constant: a callsign or password containing '%' is sent (and reported by RemoteCall) mangled")
+		}
+	}
+	if nReaders < 2 {
+		r.Fail(rule, "found %d buffered login readers in package telnet, expected the dialling and the accepting side", nReaders)
+	}
 }
